@@ -58,6 +58,9 @@ func Gen(seed uint64, profile string) *Scenario {
 		k.bigFile = r.Chance(1, 3)
 	case "meta":
 		k.inLinks, k.absInLinks, k.outLinks, k.fifos, k.rules, k.specials, k.oddModes, k.bigFile, k.extBack = r.Chance(1, 2), r.Chance(1, 4), r.Chance(1, 2), r.Chance(1, 4), r.Chance(1, 2), r.Chance(1, 3), r.Chance(1, 3), r.Chance(1, 8), r.Chance(1, 6)
+	case "mutate":
+		k.inLinks, k.rules, k.specials = r.Chance(1, 3), r.Chance(1, 4), r.Chance(1, 4)
+		k.concShared = true // big incompressible files: the walk yields many times inside them
 	case "hostile":
 		k.inLinks, k.outLinks, k.hostileLinks, k.fifos, k.rules, k.degenRules, k.specials, k.metaRules = r.Chance(1, 2), r.Chance(2, 3), true, r.Chance(1, 2), r.Chance(2, 3), true, r.Chance(1, 2), r.Chance(1, 2)
 	default:
@@ -81,6 +84,10 @@ func Gen(seed uint64, profile string) *Scenario {
 }
 
 func pickSeg(r *simkit.RNG, k *knobs) string {
+	if k.specials && r.Chance(1, 20) {
+		// names that need PAX/GNU long-name records (over 100 bytes, and paths over 255)
+		return strings.Repeat(simkit.Pick(r, []string{"L", "long-", "ü"}), simkit.Pick(r, []int{40, 101, 60})) + simkit.Pick(r, segPool)
+	}
 	if k.specials && r.Chance(1, 4) {
 		return simkit.Pick(r, specialSegs)
 	}
@@ -122,8 +129,9 @@ func genTree(r *simkit.RNG, sc *Scenario, k *knobs) {
 		add(TNode{Root: "ext", Path: "chain1", Kind: "link", Target: "chain2"})
 		add(TNode{Root: "ext", Path: "chain2", Kind: "link", Target: "file"})
 		add(TNode{Root: "ext", Path: "dirlink", Kind: "link", Target: "dir"})
+		add(TNode{Root: "ext", Path: "emptyd", Kind: "dir", Mode: 0o755})
 		extFiles = []string{"file", "dir/f", "chain1"}
-		extDirs = []string{"dir", "dirlink", "dir/sub"}
+		extDirs = []string{"dir", "dirlink", "dir/sub", "emptyd"}
 		if k.extBack {
 			// links inside an out-of-tree directory: back into the tree (relative / absolute) and further out
 			switch r.Intn(4) {
@@ -284,7 +292,11 @@ func genTree(r *simkit.RNG, sc *Scenario, k *knobs) {
 			if !k.fifos {
 				continue
 			}
-			add(TNode{Root: "src", Path: p, Kind: "fifo", Mode: 0o644})
+			sk := simkit.Pick(r, []string{"fifo", "fifo", "sock", "dev"})
+			if sk == "dev" && sc.UID != 0 {
+				sk = "sock"
+			}
+			add(TNode{Root: "src", Path: p, Kind: sk, Mode: 0o644})
 		}
 	}
 }
@@ -429,7 +441,14 @@ func genRuns(r *simkit.RNG, sc *Scenario, k *knobs, profile string) {
 			p.RoundTrip = "seq"
 		}
 		sc.Runs = []PackRun{p}
-		switch r.Intn(6) {
+		if r.Chance(1, 10) {
+			sc.RulesKind = simkit.Pick(r, []string{"dir", "longline"})
+		}
+		switch r.Intn(7) {
+		case 6:
+			// the same Packer packed this directory before, when its rule file said something else
+			sc.SharedPacker = true
+			sc.History = append(sc.History, "shared:stale-rules")
 		case 0, 1:
 			sc.History = append(sc.History, simkit.Pick(r, []string{"neg-first", "empty-rules", "other-opts", "dot-other-tree"}))
 			sc.Runs = append(sc.Runs, run()) // same pack again after the history
@@ -463,6 +482,10 @@ func genRuns(r *simkit.RNG, sc *Scenario, k *knobs, profile string) {
 		}
 		for i := r.Intn(3); i > 0; i-- {
 			sc.History = append(sc.History, simkit.Pick(r, []string{"neg-first", "other-opts", "empty-rules", "chdir:/tmp", "same", "dot-other-tree"}))
+		}
+		if r.Chance(1, 4) {
+			sc.SharedPacker = true
+			sc.History = append(sc.History, "shared:fail@"+strconv.Itoa(simkit.Pick(r, []int{5, 300, 2000, 20000, 70000, 100000})))
 		}
 		if r.Chance(1, 3) {
 			sc.Conc = true
@@ -500,9 +523,35 @@ func genRuns(r *simkit.RNG, sc *Scenario, k *knobs, profile string) {
 				sc.Others = []string{"big"}
 			}
 		}
+	case "mutate":
+		sc.Opts.Deref = false
+		sc.Opts.Allow = nil
+		sc.History = nil
+		sc.SharedPacker = false
+		sc.Runs = []PackRun{run()}
+		sc.Conc = true
+		sc.SchedSeed = r.U64()
+		sc.SchedShape = simkit.Pick(r, []string{"random", "rr"})
+		var files []string
+		for _, n := range sc.Tree {
+			if n.Root == "src" && n.Kind == "file" {
+				files = append(files, n.Path)
+			}
+		}
+		for i := r.Range(1, 4); i > 0 && len(files) > 0; i-- {
+			m := Mutation{Op: simkit.Pick(r, []string{"truncate", "truncate", "grow", "remove", "chmod000", "replace-with-dir"}), Path: simkit.Pick(r, files)}
+			if r.Chance(2, 3) {
+				m.Path = simkit.Pick(r, []string{"big-1.bin", "big-2.bin"})
+			}
+			m.Size = simkit.Pick(r, []int{0, 1, 1000, 35000, 65536, 200000})
+			sc.Mutations = append(sc.Mutations, m)
+		}
 	case "hostile":
 		sc.Opts.Deref = r.Chance(3, 4)
 		p := run()
 		sc.Runs = []PackRun{p}
+		if k.rules && r.Chance(1, 4) {
+			sc.RulesKind = simkit.Pick(r, []string{"dir", "longline"})
+		}
 	}
 }
